@@ -103,6 +103,12 @@ def _loops(draw):
         pi = draw(st.integers(0, len(phases) - 1))
         li = draw(st.integers(0, len(phases[pi]) - 1))
         phases[pi][li] = {'calls': phases[pi][li], 'then': calls()}
+    if draw(st.integers(0, 3)) == 0:
+        # one call hands work to a thread that inherits its context and runs a loop of its own using the function
+        ph = draw(st.sampled_from(phases))
+        lp = draw(st.sampled_from(ph))
+        cs = lp['calls'] if isinstance(lp, dict) else lp
+        draw(st.sampled_from(cs))['nested'] = calls()
     sched = draw(schedule_strategy(max_decision=500, lines=loop_lines(), nthreads=4, walk_len=200))
     return {'kind': 'loops', 'cfg': cfg, 'form': draw(st.sampled_from(['deco', 'deco-opts'])), 'phases': phases,
             'bdur': draw(st.sampled_from([0, U, 4 * U])), 'sched': sched}
@@ -361,4 +367,6 @@ def _run_loops(case):
         cl.append('concurrent-loops')
     if any(isinstance(lp, dict) for ph in case['phases'] for lp in ph):
         cl.append('resumed-loop')
+    if any(c.get('nested') for ph in case['phases'] for lp in ph for c in (lp['calls'] + lp['then'] if isinstance(lp, dict) else lp)):
+        cl.append('nested-loop-in-thread')
     return Result(viol, nt, cl, HM.abbreviate(hist), {'steps': hist['steps'], 'decisions': hist['decisions']})
